@@ -43,7 +43,7 @@ MODULES = ["schema/validation/format.py", "schema/validation/format.py", "schema
            "schema/validation/base.py", "schema/validation/array.py", "schema/validation/string.py",
            "schema/elements/properties.py", "schema/elements/items.py", "schema/elements/composition.py",
            "schema/property.py", "schema/elements/base.py", "schema/elements/meta.py", "schema/elements/object.py",
-           "schema/validation/__init__.py", "schema/exceptions.py"]
+           "schema/validation/__init__.py", "schema/exceptions.py", "schema/validation/numeric.py"]
 
 
 @st.composite
@@ -104,6 +104,16 @@ def cases(draw):
                     "items": [{"id": 9307, "kind": "Number", "kw": {}}, {"id": 9308, "kind": "Number", "kw": {}}]}}}]}
         if recipe["kind"] == "Object":
             recipe["name"] = "Order"
+    elif draw(st.integers(0, 6)) == 0:
+        # numeric keywords against huge / tiny numbers (arithmetic beyond float precision takes other code paths,
+        # possibly with per-thread state such as the decimal context)
+        num = {"id": 9501, "kind": draw(st.sampled_from(["Number", "Element", "Integer"])),
+               "kw": {"multipleOf": draw(st.sampled_from([0.5, 3.0, 2, 0.25, 1e-30]))}}
+        recipe = draw(st.sampled_from([
+            num,
+            {"id": 9500, "kind": "Array", "kw": {}, "sub": {"items": num}},
+            {"id": 9500, "kind": "Element", "kw": {}, "props": [
+                {"name": "v", "source": None, "required": False, "element": num}]}]))
     schema = R.to_schema(recipe)
     n = draw(st.integers(2, 4))
     # threads draw (with repetition) from one small pool, so that the same value is validated by
@@ -112,6 +122,9 @@ def cases(draw):
     if "dependencies" in canon(schema) and recipe.get("id") == 9100:
         pool += [{"a": 1}, {"b": 1}, {"c": 1, "d": 2}, {"a": 1, "b": 2, "c": 3, "d": 4, "e": 5}, {"a": 1, "e": 1},
                  {"d": 1}, {"b": 1, "a": 2}]
+    if recipe.get("id") in (9500, 9501):
+        nums = [1e30, 10 ** 40, 3.0, 1e-30, 2 ** 70 + 1, 7.5e28, -1e35, 1.5, 6, 10 ** 29]
+        pool = list(nums) + [[x] for x in nums[:4]] + [{"v": x} for x in nums[:5]]
     if recipe.get("id") == 9300:
         key = "order-lines" if "order-lines" in canon(schema) else "lines"
         pool = [{key: ["a", 1, {"sku": "x"}]}, {key: ["a", 1, {"sku": "x"}], "pair": [1, 2]}, {key: ["a"]}, {key: [1]},
@@ -127,6 +140,12 @@ def cases(draw):
     schedule = draw(st.lists(st.tuples(st.one_of(st.integers(0, 30), st.integers(0, 400)), st.integers(1, 3)), min_size=4, max_size=40))
     focus = draw(st.lists(st.tuples(st.sampled_from(MODULES), st.integers(0, 40), st.integers(1, 3)), max_size=6))
     dense = draw(st.lists(st.sampled_from(MODULES), max_size=1)) if draw(st.integers(0, 2)) == 0 else []
+    # the directed families know which module's lines matter for them: switch at every line of it, half of the time
+    home = {9100: "schema/validation/object.py", 9200: "schema/elements/base.py", 9300: "schema/elements/items.py",
+            9500: "schema/validation/numeric.py", 9501: "schema/validation/numeric.py",
+            9000: "schema/validation/format.py", 9001: "schema/validation/format.py"}.get(recipe.get("id"))
+    if home and draw(st.booleans()):
+        dense = [home]
     return {"recipe": recipe, "threads": threads, "schedule": [list(x) for x in schedule],
             "focus": [list(x) for x in focus], "dense": dense}
 
